@@ -161,7 +161,7 @@ func (s *stats) violate(v violation) {
 		if len(sig) > 300 {
 			sig = sig[:300]
 		}
-		fmt.Fprintf(recordFile, "%s %s %s\n", h, rc, strings.ReplaceAll(sig, "\n", "\\n"))
+		fmt.Fprintf(recordFile, "%s %s %s\n", h, rc, strconv.QuoteToASCII(sig))
 	}
 	if ledger != nil {
 		if _, ok := ledger[h]; ok {
@@ -210,7 +210,8 @@ func init() {
 		}
 	}
 	if p := os.Getenv("VERIF_RECORD"); p != "" {
-		f, err := os.Create(p)
+		// append: child processes of a harness run share the file (the runner removes it first)
+		f, err := os.OpenFile(p, os.O_APPEND|os.O_CREATE|os.O_WRONLY, 0o644)
 		if err == nil {
 			recordFile = f
 		}
